@@ -62,7 +62,7 @@ def strat_page():
                     return ""
                 if kind == "blank":
                     return draw2(st.sampled_from([" ", "  ", "\t", " "]))
-                toks = draw2(st.lists(token, min_size=1, max_size=5))
+                toks = draw2(st.lists(token, min_size=1, max_size=5)) if draw2(st.integers(0, 11)) else draw2(st.lists(token, min_size=15, max_size=40))
                 s = draw2(st.sampled_from(["", "", " ", "  ", "\t"]))
                 for i, t in enumerate(toks):
                     s += t
